@@ -298,6 +298,16 @@ func (p *Prog) serveLoop(prop string) *serveResult {
 						}
 					}
 				}
+				// a read through a getter of the ctx (the field taken under its lock) is a read of the field
+				if c, ok := in.(*ssa.Call); ok {
+					if u := getterLoad(c); u != nil {
+						if fa, ok := u.X.(*ssa.FieldAddr); ok && typeNameOf(fa.X) == "RequestCtx" {
+							if fv := fieldVar(fa.X.Type(), fa.Field); fv != nil {
+								readHere[fv] = true
+							}
+						}
+					}
+				}
 			}
 		}
 		for fv, by := range settable {
@@ -976,7 +986,7 @@ func (p *Prog) serveLoop(prop string) *serveResult {
 						st.N[1] = 0
 					}
 				}
-				if _, fv := loadedField(o); fv != nil && fv.Name() == "timeoutResponse" && inL[from] {
+				if isFieldOrGetter(o, "timeoutResponse") && inL[from] {
 					if st.Has(evHandler) && !st.Has(evTimeoutKnown) {
 						check("C16|R5|nothing but timeoutResponse is read from the ctx between the handler's return and the timeout test", true, st, from.Instrs[len(from.Instrs)-1].Pos(), "")
 					}
@@ -1000,6 +1010,15 @@ func (p *Prog) serveLoop(prop string) *serveResult {
 						tv = bo.Y
 					}
 					zeroWhen = bo.Op == token.EQL
+				}
+				if c, isCall := tv.(*ssa.Call); isCall {
+					if u := getterLoad(c); u != nil && len(c.Call.Args) > 0 && typeNameOf(c.Call.Args[0]) == "RequestCtx" {
+						if _, fv := loadedField(u); fv != nil {
+							if bit := ctxFieldBit(fv); bit != 0 && tk == zeroWhen {
+								st.Clear(bit)
+							}
+						}
+					}
 				}
 				if _, fv := loadedField(tv); fv != nil {
 					if bit := ctxFieldBit(fv); bit != 0 && tk == zeroWhen {
